@@ -128,7 +128,14 @@ def run(ck: Check, repo: Repo) -> None:
     from dataclasses import replace
     from . import c01
     sub = Check("C01", ck.tier, ck.repo_root)
-    c01.run(sub, repo)
+    # the shared obligations look at the same normal form of select() as the rules below (see _loop_form; the loaded method is put back afterwards)
+    cls = repo.cls(TOUR, "TournamentSelection")
+    loaded = cls.methods["select"]
+    cls.methods["select"] = _loop_form(repo, cls, loaded)
+    try:
+        c01.run(sub, repo)
+    finally:
+        cls.methods["select"] = loaded
     ck.rule("C05.7", "the members of the new population are faithful copies: every structural condition of a faithful, independent clone holds "
                      "(all obligations of the C01 check, shared; open C01 findings are reported under C01 only)")
     taken = [replace(o, rule="C05.7") for o in sub.obs if o.status != "known"]
@@ -205,7 +212,7 @@ def run(ck: Check, repo: Repo) -> None:
     okm = isinstance(elt, ast.Call) and call_name(elt) in ("np.mean", "numpy.mean") and len(elt.args) == 1
     sl = elt.args[0] if okm else None
     oks = isinstance(sl, ast.Subscript) and dotted(sl.value) == f"{tgt_name}.fitness" and isinstance(sl.slice, ast.Slice) and sl.slice.upper is None \
-        and sl.slice.step is None and isinstance(sl.slice.lower, ast.UnaryOp) and isinstance(sl.slice.lower.op, ast.USub) and dotted(sl.slice.lower.operand) == "self.eval_loop"
+        and sl.slice.step is None and _is_neg_window(ecfg, sl.slice.lower, ecfg.node_of(site))
     ck.ob("C05.1", eli, elt, okm and oks, "the score is the mean of the member's last eval_loop fitness entries (suffix slice [-eval_loop:])",
           detail=f"element: {short(elt, 100)} — a start index computed as len - eval_loop goes negative for histories shorter than the window and wraps around")
     ev = OrdEval(ecfg, {fit_name: Ord("vals", 1, over="population")})
@@ -215,8 +222,11 @@ def run(ck: Check, repo: Repo) -> None:
     r = rets[0]
     elite_e, rank_e, maxid_e = r.ast.value.elts
     # elite = <model>.clone() with model = population[Idx(best)]
+    # (the clone call may be bound to a local first or be the returned element itself)
     src_model = None
-    for d in ecfg.defs_reaching(r, dotted(elite_e)):
+    if isinstance(elite_e, ast.Call) and last_attr(elite_e) == "clone" and isinstance(elite_e.func, ast.Attribute):
+        src_model = (elite_e.func.value, r)
+    for d in ecfg.defs_reaching(r, dotted(elite_e)) if isinstance(elite_e, ast.Name) else []:
         v = ecfg.value_of_def(d, dotted(elite_e))
         if isinstance(v, ast.Call) and last_attr(v) == "clone":
             src_model = (v.func.value, d)
@@ -248,9 +258,11 @@ def run(ck: Check, repo: Repo) -> None:
     if draws:
         c = draws[0]
         if call_name(c) == "np.random.randint":
-            lo, hi = c.args[0], c.args[1] if len(c.args) > 1 else None
-            size = get_kw(c, "size", 2)
-            ok = const_value(lo) == 0 and hi is not None and ast.unparse(hi) == f"len({param})" and dotted(size) == "self.tournament_size"
+            # randint(low, high, size): positionally or by keyword; the bounds may go through single-definition temporaries
+            dn_ = tcfg.node_of(c)
+            lo, hi, size = (_resolve(tcfg, a, dn_)[0] if a is not None else None for a in (get_kw(c, "low", 0), get_kw(c, "high", 1), get_kw(c, "size", 2)))
+            ok = lo is not None and const_value(lo) == 0 and hi is not None and ast.unparse(hi) == f"len({param})" and size is not None and dotted(size) == "self.tournament_size" \
+                and not any(isinstance(a, ast.Starred) for a in c.args) and not any(k.arg is None for k in c.keywords)
         else:
             ok = False
         ck.ob("C05.2", tour, c, ok, "tournament_size indices are drawn uniformly from [0, len(population))", detail=short(c, 100))
@@ -269,6 +281,7 @@ def run(ck: Check, repo: Repo) -> None:
     # The rules below do not look at how select() spells the construction of the new population: they work on its *members* (elements of the
     # list display(s) the list is bound to, arguments of append calls; c01.list_build), count them symbolically on each arm of the elitism switch
     # and evaluate the index of the k-th tournament member as a polynomial in k.
+    sel = _loop_form(repo, cls, sel)
     scfg = CFG(sel.node)
     srets = [n for n in scfg.live_nodes() if n.kind == "stmt" and isinstance(n.ast, ast.Return)]
     returned = {dotted(n.ast.value.elts[1]) for n in srets if isinstance(n.ast.value, ast.Tuple) and len(n.ast.value.elts) == 2}
@@ -355,10 +368,11 @@ def run(ck: Check, repo: Repo) -> None:
                     ck.ob("C05.6", sel, a0 if a0 is not None else tc, a0 is not None and _from_elitism(scfg, tn, _resolve(scfg, a0, tn)[0]) == 1,
                           "the tournament runs on the ranking computed by _elitism for this population")
     # max_id is the maximum existing index
-    mx = [n for n in ecfg.live_nodes() if n.kind == "stmt" and isinstance(n.ast, ast.Assign) and dotted(n.ast.targets[0]) == dotted(maxid_e)]
-    ok = len(mx) == 1 and isinstance(mx[0].ast.value, ast.Call) and call_name(mx[0].ast.value) == "max"
+    mx = [n for n in ecfg.live_nodes() if n.kind == "stmt" and isinstance(n.ast, ast.Assign) and dotted(n.ast.targets[0]) == dotted(maxid_e)] if isinstance(maxid_e, ast.Name) else [r]
+    mxv = (mx[0].ast.value if isinstance(maxid_e, ast.Name) else maxid_e) if len(mx) == 1 else None
+    ok = isinstance(mxv, ast.Call) and call_name(mxv) == "max" and len(mxv.args) == 1 and not mxv.keywords
     if ok:
-        a = mx[0].ast.value.args[0]
+        a = mxv.args[0]
         ok = isinstance(a, (ast.ListComp, ast.GeneratorExp)) and dotted(a.generators[0].iter) == "population" and isinstance(a.elt, ast.Attribute) and a.elt.attr == "index" and not a.generators[0].ifs
     ck.ob("C05.4", eli, mx[0].ast if mx else eli.node, ok, "max_id is the maximum index over the whole old population")
     ok = len(srets) == 1 and isinstance(srets[0].ast.value, ast.Tuple) and len(srets[0].ast.value.elts) == 2
@@ -471,6 +485,101 @@ def _resolve(cfg: CFG, e: ast.AST, at: Optional[Node], limit: int = 6) -> Tuple[
             break
         e, at, limit = v, ds[0], limit - 1
     return e, at
+
+
+def _mentions(node: ast.AST, name: str) -> int:
+    return sum(1 for x in ast.walk(node) if isinstance(x, ast.Name) and x.id == name)
+
+
+def _loop_form(repo: Repo, cls: Cls, fn: Fn) -> Fn:
+    """A behaviour-preserving normal form of a method that builds and returns a list (applied to a copy; the loaded tree is not changed), so that
+    the rules see ONE local list filled by displays / appends however the construction was written:
+      (1) `x = [E for v in R]` (statement of the function body, one generator, v used nowhere else)   ->  `x = []; for v in R: x.append(E)`
+      (2) `return (.., a + b)` where b is such a list — bound once to `[]`, then only appended to in the loop that follows, and `a` is not touched
+          from b's binding to the return — ->  the appends go to `a`, and `a` is returned (the elements of a followed by those of b, either way)
+      (3) a private single-definition helper called in an appended element is expanded by the front end's inliner (which hoists the call in
+          front of the append; it leaves calls inside comprehensions alone, hence (1) first).
+    When nothing applies the method is returned as it is."""
+    import copy
+    from ..inline import inline_helpers
+    cnode = copy.deepcopy(cls.node)
+    fd = next((x for x in cnode.body if isinstance(x, ast.FunctionDef) and x.name == fn.name), None)
+    if fd is None:
+        return fn
+    changed = False
+    # (0) a comprehension operand of the returned concatenation gets a name of its own (loading the other names has no effect, so nothing is re-ordered)
+    last = fd.body[-1] if fd.body else None
+    cat = last.value.elts[-1] if isinstance(last, ast.Return) and isinstance(last.value, ast.Tuple) and last.value.elts else None
+    if isinstance(cat, ast.BinOp) and isinstance(cat.op, ast.Add) and isinstance(cat.left, ast.Name) and isinstance(cat.right, ast.ListComp):
+        tmp = "tail__c05"
+        if not _mentions(fd, tmp):
+            fd.body.insert(len(fd.body) - 1, ast.copy_location(ast.Assign(targets=[ast.Name(id=tmp, ctx=ast.Store())], value=cat.right), cat.right))
+            cat.right = ast.copy_location(ast.Name(id=tmp, ctx=ast.Load()), cat.right)
+            changed = True
+    # (1)
+    body: List[ast.stmt] = []
+    for st in fd.body:
+        v = st.value if isinstance(st, ast.Assign) and len(st.targets) == 1 and isinstance(st.targets[0], ast.Name) else None
+        if isinstance(v, ast.ListComp) and len(v.generators) == 1 and not v.generators[0].is_async and isinstance(v.generators[0].target, ast.Name) \
+                and _mentions(fd, v.generators[0].target.id) == _mentions(v, v.generators[0].target.id) and not _mentions(v, st.targets[0].id) \
+                and not any(isinstance(x, (ast.NamedExpr, ast.Yield, ast.YieldFrom, ast.Await, ast.Lambda, ast.ListComp, ast.SetComp, ast.DictComp, ast.GeneratorExp)) for x in ast.walk(v) if x is not v):
+            g = v.generators[0]
+            name = st.targets[0].id
+            app = ast.Expr(value=ast.Call(func=ast.Attribute(value=ast.Name(id=name, ctx=ast.Load()), attr="append", ctx=ast.Load()), args=[v.elt], keywords=[]))
+            inner: List[ast.stmt] = [ast.copy_location(app, v.elt)]
+            for c in reversed(g.ifs):
+                inner = [ast.copy_location(ast.If(test=c, body=inner, orelse=[]), c)]
+            body.append(ast.copy_location(ast.Assign(targets=[st.targets[0]], value=ast.copy_location(ast.List(elts=[], ctx=ast.Load()), v)), st))
+            body.append(ast.copy_location(ast.For(target=g.target, iter=g.iter, body=inner, orelse=[]), v))
+            for x in ast.walk(g.target):
+                if isinstance(x, ast.Name):
+                    x.ctx = ast.Store()
+            changed = True
+        else:
+            body.append(st)
+    fd.body = body
+    # (2)
+    last = fd.body[-1] if fd.body else None
+    cat = last.value.elts[-1] if isinstance(last, ast.Return) and isinstance(last.value, ast.Tuple) and last.value.elts else None
+    if isinstance(cat, ast.BinOp) and isinstance(cat.op, ast.Add) and isinstance(cat.left, ast.Name) and isinstance(cat.right, ast.Name) and cat.left.id != cat.right.id:
+        a, b = cat.left.id, cat.right.id
+        binds = [i for i, st in enumerate(fd.body) if isinstance(st, ast.Assign) and len(st.targets) == 1 and isinstance(st.targets[0], ast.Name) and st.targets[0].id == b
+                 and isinstance(st.value, ast.List) and not st.value.elts]
+        if len(binds) == 1 and binds[0] + 1 < len(fd.body) and isinstance(fd.body[binds[0] + 1], ast.For):
+            i = binds[0]
+            loop = fd.body[i + 1]
+            apps = [x for x in ast.walk(loop) if isinstance(x, ast.Expr) and isinstance(x.value, ast.Call) and isinstance(x.value.func, ast.Attribute) and x.value.func.attr == "append"
+                    and isinstance(x.value.func.value, ast.Name) and x.value.func.value.id == b and len(x.value.args) == 1 and not x.value.keywords
+                    and not _mentions(x.value.args[0], b)]
+            # b: its binding, its appends in the loop, the concatenation — nothing else; a: not mentioned from b's binding on, except in the concatenation
+            if _mentions(fd, b) == 2 + len(apps) and apps and sum(_mentions(st, a) for st in fd.body[i:]) == 1 and not loop.orelse:
+                for x in apps:
+                    x.value.func.value.id = a
+                last.value.elts[-1] = cat.left
+                del fd.body[i]
+                changed = True
+    if not changed:
+        return fn
+    # (3)
+    ast.fix_missing_locations(cnode)
+    inline_helpers(ast.Module(body=[cnode], type_ignores=[]), {k: 1 for k in repo.unique_defs})
+    ast.fix_missing_locations(cnode)
+    return Fn(fn.name, fn.qualname, fd, fn.mod, fn.cls)
+
+
+def _is_neg_window(cfg: CFG, e: Optional[ast.AST], at: Optional[Node], depth: int = 0) -> bool:
+    """e is -self.eval_loop: written out, or through single-definition temporaries (`w = self.eval_loop; x[-w:]`, `start = -self.eval_loop; x[start:]`);
+    the attribute is read before or inside the collection of the scores, which does not assign it."""
+    if e is None or depth > 4:
+        return False
+    if isinstance(e, ast.Name):
+        v, vn = _resolve(cfg, e, at)
+        return not isinstance(v, ast.Name) and _is_neg_window(cfg, v, vn, depth + 1)
+    if isinstance(e, ast.UnaryOp) and isinstance(e.op, ast.USub):
+        w, _ = _resolve(cfg, e.operand, at)
+        stores = [n for n in cfg.live_nodes() if n.kind != "entry" and any(k in ("self.eval_loop", "self") for k, _ in cfg.defs_at(n))]
+        return dotted(w) == "self.eval_loop" and not stores
+    return False
 
 
 def _enclosing_loops(cfg: CFG, n: Node) -> List[Node]:
@@ -846,5 +955,65 @@ VARIANTS = [
     ("elite-copy-gets-new-index", _TF, _HEAD, "        new_population = [elite.clone(max_id + 1, wrap=False)] if self.elitism else []\n        selection_size = self.population_size - len(new_population)\n", "fire", "C05.5"),
     ("elite-display-not-the-elite", _TF, _HEAD, "        new_population = [population[0].clone(wrap=False)] if self.elitism else []\n        selection_size = self.population_size - len(new_population)\n", "fire", "C05.5"),
     ("old-list-extended", _TF, "        new_population = []\n", "        new_population = population\n", "fire", "C05.3"),
+    # ---- round 4: temporaries split / folded, keyword bounds, comprehension + helper + concatenation instead of loop + append
+    ("window-through-local-ok", _TF, "        last_fitness = [np.mean(indi.fitness[-self.eval_loop :]) for indi in population]\n",
+     "        window = self.eval_loop\n        last_fitness = [np.mean(indi.fitness[-window:]) for indi in population]\n", "silent", None),
+    ("window-local-is-another-attribute", _TF, "        last_fitness = [np.mean(indi.fitness[-self.eval_loop :]) for indi in population]\n",
+     "        window = self.tournament_size\n        last_fitness = [np.mean(indi.fitness[-window:]) for indi in population]\n", "fire", "C05.1"),
+    ("window-local-not-negated", _TF, "        last_fitness = [np.mean(indi.fitness[-self.eval_loop :]) for indi in population]\n",
+     "        window = self.eval_loop\n        last_fitness = [np.mean(indi.fitness[window:]) for indi in population]\n", "fire", "C05.1"),
+    ("order-split-and-reused-elite-returned-directly-ok", _TF, "        rank = np.argsort(last_fitness).argsort()\n        max_id = max([ind.index for ind in population])\n"
+     "        model = population[int(np.argsort(rank)[-1])]\n        elite = model.clone()\n        return elite, rank, max_id\n",
+     "        order = np.argsort(last_fitness)\n        rank = order.argsort()\n        max_id = max(ind.index for ind in population)\n"
+     "        fittest = population[int(order[-1])]\n        return fittest.clone(), rank, max_id\n", "silent", None),
+    ("order-split-first-entry-reused", _TF, "        rank = np.argsort(last_fitness).argsort()\n        max_id = max([ind.index for ind in population])\n"
+     "        model = population[int(np.argsort(rank)[-1])]\n        elite = model.clone()\n        return elite, rank, max_id\n",
+     "        order = np.argsort(last_fitness)\n        rank = order.argsort()\n        max_id = max(ind.index for ind in population)\n"
+     "        fittest = population[int(order[0])]\n        return fittest.clone(), rank, max_id\n", "fire", "C05.1"),
+    ("order-split-rank-position-used-as-index", _TF, "        rank = np.argsort(last_fitness).argsort()\n        max_id = max([ind.index for ind in population])\n"
+     "        model = population[int(np.argsort(rank)[-1])]\n        elite = model.clone()\n        return elite, rank, max_id\n",
+     "        order = np.argsort(last_fitness)\n        rank = order.argsort()\n        max_id = max(ind.index for ind in population)\n"
+     "        fittest = population[int(rank[-1])]\n        return fittest.clone(), rank, max_id\n", "fire", "C05.1"),
+    ("max-id-folded-into-return-ok", _TF, "        max_id = max([ind.index for ind in population])\n        model = population[int(np.argsort(rank)[-1])]\n        elite = model.clone()\n        return elite, rank, max_id\n",
+     "        model = population[int(np.argsort(rank)[-1])]\n        elite = model.clone()\n        return elite, rank, max(ind.index for ind in population)\n", "silent", None),
+    ("draw-bounds-by-keyword-through-local-ok", _TF, "        selection = np.random.randint(0, len(fitness_values), size=self.tournament_size)\n",
+     "        n_candidates = len(fitness_values)\n        selection = np.random.randint(size=self.tournament_size, high=n_candidates, low=0)\n", "silent", None),
+    ("draw-keyword-high-short", _TF, "        selection = np.random.randint(0, len(fitness_values), size=self.tournament_size)\n",
+     "        n_candidates = len(fitness_values) - 1\n        selection = np.random.randint(low=0, high=n_candidates, size=self.tournament_size)\n", "fire", "C05.2"),
+    ("draw-keyword-low-one", _TF, "        selection = np.random.randint(0, len(fitness_values), size=self.tournament_size)\n",
+     "        selection = np.random.randint(low=1, high=len(fitness_values), size=self.tournament_size)\n", "fire", "C05.2"),
+    ("draw-only-upper-bound-keyword", _TF, "        selection = np.random.randint(0, len(fitness_values), size=self.tournament_size)\n",
+     "        selection = np.random.randint(high=len(fitness_values), size=self.tournament_size)\n", "fire", "C05.2"),
+    ("tournament-winner-folded-into-return-ok", _TF, "        selection_values = [fitness_values[i] for i in selection]\n        winner = selection[np.argmax(selection_values)]\n        return winner\n",
+     "        return selection[np.argmax([fitness_values[i] for i in selection])]\n", "silent", None),
+    ("tournament-winner-folded-argmin", _TF, "        selection_values = [fitness_values[i] for i in selection]\n        winner = selection[np.argmax(selection_values)]\n        return winner\n",
+     "        return selection[np.argmin([fitness_values[i] for i in selection])]\n", "fire", "C05.2"),
+    ("select-comprehension-helper-concatenation-range-short", _TF, _HEAD + "\n        # select parents of next gen using tournament selection\n" + _LOOP + "\n        return elite, new_population\n",
+     # select() with a conditional display, a comprehension over a private per-child helper and a concatenation (same members, same order, same indices);
+     # the text is bound HERE, inside VARIANTS, because the front end never inlines a helper whose name occurs in a rule module outside VARIANTS
+     (_COMP := ("        survivors = [elite.clone(wrap=False)] if self.elitism else []\n        selection_size = self.population_size - len(survivors)\n"
+               "        offspring = [\n            self._offspring(population, rank, index=max_id + offset)\n            for offset in range(1, selection_size + 1)\n        ]\n"
+               "        return elite, survivors + offspring\n\n    def _offspring(self, population, rank, index):\n"
+               "        parent = population[self._tournament(rank)]\n        return parent.clone(index=index, wrap=False)\n")).replace("range(1, selection_size + 1)", "range(1, selection_size)"), "fire", "C05.3"),
+    ("select-comprehension-helper-concatenation-offset-from-zero", _TF, _HEAD + "\n        # select parents of next gen using tournament selection\n" + _LOOP + "\n        return elite, new_population\n",
+     _COMP.replace("range(1, selection_size + 1)", "range(selection_size)"), "fire", "C05.4"),
+    ("select-comprehension-helper-concatenation-ok", _TF, _HEAD + "\n        # select parents of next gen using tournament selection\n" + _LOOP + "\n        return elite, new_population\n",
+     _COMP, "silent", None),
+    ("select-comprehension-in-concatenation-ok", _TF, _HEAD + "\n        # select parents of next gen using tournament selection\n" + _LOOP + "\n        return elite, new_population\n",
+     "        survivors = [elite.clone(wrap=False)] if self.elitism else []\n        selection_size = self.population_size - len(survivors)\n"
+     "        return elite, survivors + [population[self._tournament(rank)].clone(max_id + 1 + k, wrap=False) for k in range(selection_size)]\n", "silent", None),
+    ("select-comprehension-filtered", _TF, _HEAD + "\n        # select parents of next gen using tournament selection\n" + _LOOP + "\n        return elite, new_population\n",
+     "        survivors = [elite.clone(wrap=False)] if self.elitism else []\n        selection_size = self.population_size - len(survivors)\n"
+     "        return elite, survivors + [population[self._tournament(rank)].clone(max_id + 1 + k, wrap=False) for k in range(selection_size) if k % 2]\n", "fire", "C05.3"),
+    ("select-concatenation-first-list-reused-after", _TF, _HEAD + "\n        # select parents of next gen using tournament selection\n" + _LOOP + "\n        return elite, new_population\n",
+     "        survivors = [elite.clone(wrap=False)] if self.elitism else []\n        selection_size = self.population_size - len(survivors)\n"
+     "        offspring = [population[self._tournament(rank)].clone(max_id + 1 + k, wrap=False) for k in range(selection_size)]\n"
+     "        survivors = survivors[:0]\n        return elite, survivors + offspring\n", "fire", "C05"),
+    ("select-comprehension-helper-same-index-for-all", _TF, _HEAD + "\n        # select parents of next gen using tournament selection\n" + _LOOP + "\n        return elite, new_population\n",
+     _COMP.replace("index=max_id + offset", "index=max_id + 1"), "fire", "C05.4"),
+    ("select-concatenation-elite-last", _TF, _HEAD + "\n        # select parents of next gen using tournament selection\n" + _LOOP + "\n        return elite, new_population\n",
+     _COMP.replace("survivors + offspring", "offspring + survivors"), "fire", "C05"),
+    ("select-helper-parent-not-a-winner", _TF, _HEAD + "\n        # select parents of next gen using tournament selection\n" + _LOOP + "\n        return elite, new_population\n",
+     _COMP.replace("parent = population[self._tournament(rank)]", "parent = population[index % len(population)]"), "fire", "C05.6"),
     ("winner-rank-not-from-elitism", _TF, "            actor_parent = population[self._tournament(rank)]\n", "            winner = self._tournament(np.arange(len(population)))\n            actor_parent = population[winner]\n", "fire", "C05.6"),
 ]
